@@ -28,17 +28,23 @@ TIERS = {
 RULE = ("case = seeded continuum (2..5 annotators, grid/jitter/nested/staircase/identical/sparse families incl. empty annotators, "
         "exact ties) x dissimilarity (positional; combined with absolute/levenshtein/ordinal/numerical, alpha,beta in {0,.5,1,3}, "
         "delta_empty in {.5,1,1.5,2}); best alignment under 3 solver-fault configurations vs exact optimum over the unpruned "
-        "candidate set (DP <= 12 units, HiGHS MILP <= 3000 candidates). distinct_nontrivial = distinct (continuum, dissimilarity) "
+        "candidate set (DP <= 12 units, HiGHS MILP <= 3000 candidates; 2% dense-overlap cases with 7000-30000 candidates that cross "
+        "the buffer-growth boundaries of the candidate enumeration, MILP oracle). distinct_nontrivial = distinct (continuum, dissimilarity) "
         "cases with >= 2 units on >= 2 annotators for which a GLPK fallback actually fired")
 ASSUMPTIONS = [
     "pair costs are taken from the dissimilarity's own compiled kernel (C04 is out of scope for this technique)",
-    "oracle sizes bounded: DP <= 12 units, MILP <= 3000 candidate unitary alignments",
+    "oracle sizes bounded: DP <= 12 units, MILP <= 3000 candidate unitary alignments (<= 30000 for the dense family)",
 ]
 COMPONENTS = {"real": common.REAL_COMPONENTS + ["scipy.optimize.milp (HiGHS) - oracle only"],
               "stub": ["cylp importability / CBC solve success (fault injection)"]}
 
 
 def gen(ch, tier):
+    if ch.coin(0.02):
+        # dense overlap: 10000+ candidates (buffer growth in the candidate enumeration), oracle = independent MILP
+        shape = ch.choice([(4, 11), (3, 23), (5, 6)])
+        return ac.gen_align_case(ch, min_annot=shape[0], max_annot=shape[0], max_units=shape[1], max_total=120,
+                                 max_candidates=30000, families=[("dense", 1)])
     big = ch.coin(0.35)
     if big:
         return ac.gen_align_case(ch, max_annot=ch.choice([2, 3, 3, 4, 5]), max_units=ch.choice([3, 5, 9]),
